@@ -98,6 +98,7 @@ theorem head_script {s s' : State} {r t : Id} {up : List Id} {ph : Phase} {tag :
       = .ok (res, s')) : HeadOut r s up ph s' res := by
   obtain ⟨el, s1, e1, e2⟩ := bind_ok.mp e
   obtain ⟨hc1, hdo1, hchg1, hfresh1, hel1, hnm1, hnol1⟩ := createElement_core hc e1
+  obtain ⟨_, hpar1, hkids1, htxt1, htc1, _, _, _, _⟩ := createElement_adj hc.late hc.adj e1
   obtain ⟨fr, s2, e3, e4⟩ := bind_ok.mp e2
   have q2 : QS s1 s2 := IsQ.q _ _ _ e3
   have hc2 := hc1.qs q2
@@ -139,8 +140,35 @@ theorem head_script {s s' : State} {r t : Id} {up : List Id} {ph : Phase} {tag :
         rcases hp with rfl | hp
         · exact htel
         · cases hp⟩ e9
+    have hst4' : s4'.openElems = s.openElems := by rw [hq14.openElems, hdo1]
+    have hfr' : el ∉ s4'.openElems := by
+      rw [hst4']; intro hm
+      exact Nat.lt_irrefl _ (Nat.lt_of_lt_of_le (lt_of_isElement (hc.late.st.oe el hm)) hfresh1)
+    have htlt : t < s.dom.size := lt_of_isElement hte
+    have hcand : ∀ p, (InsertionPoint.lastChild t).nodes.1 = p ∨ (InsertionPoint.lastChild t).nodes.2 = some p →
+        p ≠ el := by
+      intro p hp
+      simp only [InsertionPoint.nodes] at hp
+      rcases hp with rfl | hp
+      · exact htel
+      · cases hp
+    obtain ⟨hadj5, hadj5p⟩ := insertAt_new_adj (el := el) hc4.late hipok hc4.adj hfr'
+      (by rw [parentOf_of_nodes hq14.nodes]; exact hpar1)
+      (by rw [isText_of_data (d := s1.dom) (by unfold Dom.dataOf; rw [hq14.nodes])]; exact htxt1)
+      (by rw [childrenOf_of_nodes hq14.nodes]; exact hkids1)
+      (fun tc htc => by
+        rw [tc_of_nodes hq14.nodes] at htc
+        obtain ⟨h1, h2⟩ := htc1 tc htc
+        refine ⟨by rw [childrenOf_of_nodes hq14.nodes]; exact h1, fun p hp => ?_⟩
+        simp only [InsertionPoint.nodes] at hp
+        rcases hp with rfl | hp
+        · exact Nat.ne_of_lt (Nat.lt_of_lt_of_le htlt h2)
+        · cases hp)
+      hcand
+      (hc4.no_open_before_plain (by rw [hst4']; exact hi.last)) e9
+    have hoe54 : s4.openElems = s4'.openElems := by rw [hdo5]
     have hc5 : Core s4 r up ph := hc4.transfer hl5 hext5.chg hrs (by rw [hk05]; exact hc4.rdoc)
-      (by rw [hdo5]) (by rw [hdo5]) (by rw [hdo5]) (by rw [hdo5]) (by rw [hdo5])
+      (by rw [hdo5]) (by rw [hdo5]) (by rw [hdo5]) (by rw [hdo5]) (by rw [hdo5]) (by rw [hoe54]; exact hadj5)
     obtain ⟨_, s6, e10, e11⟩ := bind_ok.mp e7
     unfold push at e10
     have hs6 := modS_ok.mp e10
@@ -154,6 +182,7 @@ theorem head_script {s s' : State} {r t : Id} {up : List Id} {ph : Phase} {tag :
     have hc6 : Core s6 r (up ++ [el]) ph := by
       rw [hs6]
       exact hc5.push ⟨hext5.chg.isElement hel4, by rw [hk05]; exact hnol4 0⟩ hfr (by rw [hnm5]; decide)
+        (by rw [hoe54]; exact hadj5p)
     have hchg : Chg s.dom s4.dom := (hchg1.trans (SameSk.of_nodes hq14.nodes).chg).trans hext5.chg
     have hfields : s4.headElem = s.headElem ∧ s4.mode = s.mode ∧ s4.origMode = s.origMode := by
       have h5 := hdo5; have h14 := hq14.rest; have h1 := hdo1
